@@ -133,6 +133,31 @@ def apply_fs(sb, step):
             fd.truncate(n // 2)
 
 
+# process-lifetime state observed to change during the one-process side of the histories: snapshot key -> first op that changed it
+STATE_CHANGES = {}
+
+
+def check_state_cells(ctx):
+    """dynamic validation of the state translator: every change of the package's process-lifetime state that was OBSERVED
+       (harness/state_snapshot.py: module-level objects, class attributes, function attributes, default-argument objects,
+       TORRENTFILE_* variables, stream rebinding) must be explained by a cell of coq/Gen/GenState.v"""
+    import re
+    import state_snapshot
+    try:
+        txt = open(os.path.join(core.COQ, "Gen", "GenState.v"), encoding="utf-8").read()
+    except OSError:
+        return
+    cells = re.findall(r'\(\d+, "([^"]+)"\)', txt)
+    for key, op in sorted(STATE_CHANGES.items()):
+        ok = state_snapshot.covered(key, cells)
+        ctx.case(key=("state-cell", key), classes=["observed state change " + key.split(":")[0]], nontrivial=True)
+        ctx.traces_validated += 1
+        if not ok:
+            ctx.disagree("gen/gen_state.py cell list vs process-lifetime state observed to change at run time",
+                         {"observed_change": key, "first_changed_by_step": op}, f"one of the cells {cells}", "no cell explains it")
+    ctx.extra["observed_state_changes"] = sorted(STATE_CHANGES)
+
+
 def run_history(tmp, hid, steps, seed):
     import random
     rnd = random.Random(seed)
@@ -159,7 +184,10 @@ def run_history(tmp, hid, steps, seed):
             if not line:
                 diffs.append({"step": k, "op": st, "one_process": "runner died", "fresh": None})
                 break
-            r1 = json.loads(line)["result"]
+            rec = json.loads(line)
+            r1 = rec["result"]
+            for key in rec.get("state_changed", []):
+                STATE_CHANGES.setdefault(key, st["op"])
             from runners import history as H
             d1 = H.tree_digest(sb)
             post = sb + f".post{k}"
@@ -387,6 +415,7 @@ def run(ctx, model_ok):
         for d in diffs:
             ctx.fail("history-dependent-result", {"history": steps[:d["step"] + 1]},
                      {"fresh_interpreter": d["fresh"]}, {"same_process": d["one_process"], "fs_equal": d.get("fs_equal")})
+    check_state_cells(ctx)
 
 
 def replay(ctx, data):
